@@ -50,6 +50,13 @@ def check(world, spec, outcome) -> None:
         _probe_contention(world, recs)
     for uid, atts in dels.items():
         _check_delivery(world, pol, arm, uid, atts, recs, contended)
+    if spec.get("sibling"):
+        world.probe("sibling-consumer-of-the-same-event")
+        for uid, atts in deliveries(recs, "sib").items():
+            bad = [a for a in atts if a["enter"]["retry"] != 0 or a["enter"]["lastexc"] is not None]
+            if len(atts) != 1 or bad:
+                world.violate("C05.sibling-retried", f"step sib (no retry policy, never fails) was executed {len(atts)} times for event uid {uid}, "
+                              f"retry_info {[(a['enter']['retry'], a['enter']['lastexc']) for a in atts]}: another step's retries reached it", atts[-1]["seq"])
 
 
 def _probe_contention(world, recs) -> None:
